@@ -191,3 +191,56 @@ func lemmaControllerAddrText(a ControllerAddr) (ControllerAddr, bool) {
 
 	return b, err == nil
 }
+
+// ---- JSON and text round trips of the leaf types (C14) -----------------------------------------
+
+func lemmaTextHHmm(h HHmm) (HHmm, bool) {
+	p, err := HHmmFromString(h.String())
+	if err != nil || p == nil {
+		return HHmm{}, false
+	}
+
+	return *p, true
+}
+
+func lemmaJSONHHmm(h HHmm) (HHmm, bool) {
+	b, err := h.MarshalJSON()
+	if err != nil {
+		return HHmm{}, false
+	}
+
+	var x HHmm
+	if err := x.UnmarshalJSON(b); err != nil {
+		return HHmm{}, false
+	}
+
+	return x, true
+}
+
+func lemmaJSONControlState(v ControlState) (ControlState, bool) {
+	b, err := v.MarshalJSON()
+	if err != nil {
+		return 0, false
+	}
+
+	var x ControlState
+	if err := x.UnmarshalJSON(b); err != nil {
+		return 0, false
+	}
+
+	return x, true
+}
+
+func lemmaJSONDate(d Date) (Date, bool) {
+	b, err := d.MarshalJSON()
+	if err != nil {
+		return Date{}, false
+	}
+
+	var x Date
+	if err := x.UnmarshalJSON(b); err != nil {
+		return Date{}, false
+	}
+
+	return x, true
+}
